@@ -14,6 +14,8 @@ def run(ctx):
                 "dyadic coefficient fields with forced zeros and mixed signs; a case is non-trivial if some axis has N>=2 and spacing or a field "
                 "is non-constant; distinct by content hash. impl_probe: the property's identity evaluated directly on the real code")
     ctx.prove("C05")
+    from suites import symsuite
+    run_suites(ctx, ["symbolic"], runner=symsuite.run_suite, relevant=symsuite.relevant_for(['diffusion', 'central', 'divergence', 'gradient', 'linmean', 'upwind']))
     run_suites(ctx, SUITES, relevant=REL)
     try:
         n = probes.probe_c05(ctx, pf)
